@@ -8,7 +8,8 @@ props=sys.argv[2:] or ['C15','C12','C17','C16','C07']
 res={'seeds_per_check':N,'worker_counts':[5,16],'checks':{}}
 for p in props:
     rows=[]; mism=0; t0=time.time()
-    for seed in range(1000, 1000+N):
+    START=int(os.environ.get('START','1000'))
+    for seed in range(START, START+N):
         d=[]
         for w in (5,16):
             tmp=tempfile.mkdtemp(prefix='det-', dir='/verif/target/scratch')
@@ -25,5 +26,5 @@ for p in props:
         rows.append({'seed':seed,'runs':d,'equal':ok})
         print(p,seed,d,'OK' if ok else 'MISMATCH',flush=True)
     res['checks'][p]={'seeds':N,'mismatches':mism,'wall_s':round(time.time()-t0,1),'rows':rows}
-json.dump(res,open('/verif/determinism.json','w'),indent=1)
+json.dump(res,open(os.environ.get('OUT','/verif/determinism.json'),'w'),indent=1)
 print('mismatches:',{p:v['mismatches'] for p,v in res['checks'].items()})
